@@ -6,6 +6,7 @@ import (
 	"os"
 	"path/filepath"
 	"sort"
+	"strconv"
 	"strings"
 	"time"
 
@@ -123,13 +124,30 @@ func c03Exported(p *lisp.Package, name string) bool {
 	return false
 }
 
+// c03WatchLimit: 120 s, scaled when the driver re-runs a slow case alone.
+func c03WatchLimit() time.Duration {
+	d := 120 * time.Second
+	if b, err := time.ParseDuration(os.Getenv("VERIF_WATCHDOG_BASE")); err == nil && b > 0 {
+		d = b // self-test of the retry path only
+	}
+	if n, err := strconv.Atoi(os.Getenv("VERIF_WATCHDOG_SCALE")); err == nil && n > 1 {
+		d *= time.Duration(n)
+	}
+	return d
+}
+
 func c03Watch(w *fw.W, idx int, what string) func() {
 	done := make(chan struct{})
 	go func() {
 		select {
 		case <-done:
-		case <-time.After(120 * time.Second):
-			fmt.Fprintf(os.Stderr, "WEDGED: case %d (%s) did not return within 120s\n", idx, what)
+		case <-time.After(c03WatchLimit()):
+			select {
+			case <-done: // finished just as the timer fired
+				return
+			default:
+			}
+			fmt.Fprintf(os.Stderr, "WEDGED: case %d (%s) did not return within %v\n", idx, what, c03WatchLimit())
 			os.Exit(7)
 		}
 	}()
@@ -422,7 +440,7 @@ func c03Sweep(w *fw.W, idx int) {
 	// values in two positions (a defect that needs a PAIR of unusual arguments, such as
 	// a long string and a count near the integer limit, is otherwise a lottery).
 	rep := k / (len(st.funs) * (maxAr + 1)) // how often this (function, arity) came up before
-	var bidx []int // boundary subset of the pool
+	var bidx []int                          // boundary subset of the pool
 	for j, p := range pool {
 		switch {
 		case p.Type == lisp.LInt, p.Type == lisp.LFloat && (j%2 == 0), p.Type == lisp.LString && len(p.Str) != 1, p.Type == lisp.LBytes && j%2 == 0:
